@@ -36,6 +36,10 @@ def obligations(tier):
         for sub in subs:
             obs.append(Ob(f"L2.select_tag[list order {order}, scope {scope}, minor classes {b0}/{b1}/{b2}, {sub}]", "c09.py", "select_tag",
                           {"order": order, "fix": dict({"scope": scope}, **sub), "b0": b0, "b1": b1, "b2": b2}, timeout=t))
+    # legacy patterns go through the legacy reader (v1version.is_valid) in the tag filter
+    for scope in (1, 2):
+        obs.append(Ob(f"L2.select_tag[{{semver}}, scope {scope}]", "c09.py", "select_tag",
+                      {"order": scope - 1, "legacy": True, "fix": {"scope": scope, "junk": scope == 1, "explicit_zero": False}}, timeout=t))
     obs.append(Ob("L2.no_matching_tag", "c09.py", "no_matching_tag", {}, timeout=t))
     is_open = finding_open(KEY_IMPOSSIBLE)
     obs.append(Ob("L1.is_valid_total[vYYYY.0M.0D]", "c09.py", "is_valid_total", {"exclude_impossible_dates": True} if is_open else {}, timeout=t))
